@@ -72,19 +72,25 @@ impl<T: Config> InputQueue<T> {
     /// gap. The caller is responsible for sending these to remote peers so they see consecutive
     /// frame numbers.
     pub(crate) fn set_frame_delay(&mut self, delay: usize) -> Vec<PlayerInput<T::Input>> {
-        let old_delay = self.frame_delay;
         self.frame_delay = delay;
 
-        if delay <= old_delay || self.last_added_frame == NULL_FRAME {
-            return Vec::new();
+        let mut fills = Vec::new();
+        if self.last_added_frame == NULL_FRAME {
+            return fills;
         }
 
-        let fill_count = delay - old_delay;
-        let fill_start = self.last_added_frame + 1;
-        let last_input = self.inputs[Self::prev_pos(self.head)];
-        (0..fill_count as i32)
-            .map(|i| PlayerInput::new(fill_start + i, last_input.input))
-            .collect()
+        // The queue has to hold every frame up to `last_user_frame + delay`. The gap is measured
+        // against what the queue really holds (not against the previous delay value, which says
+        // nothing after a decrease that has not drained yet), and every fill is stored right away,
+        // so the inputs announced to the remote peers are exactly the inputs this queue will return.
+        let target_frame = self.last_user_frame + delay as i32;
+        while self.last_added_frame < target_frame {
+            let last_input = self.inputs[Self::prev_pos(self.head)];
+            let fill_frame = self.last_added_frame + 1;
+            self.add_input_by_frame(last_input, fill_frame);
+            fills.push(PlayerInput::new(fill_frame, last_input.input));
+        }
+        fills
     }
 
     pub(crate) fn reset_prediction(&mut self) {
